@@ -70,7 +70,7 @@ TEXT = {
         "design_ref": "DESIGN.md sect. 4 (C04), sect. 3.1-3.5",
         "technique": "deterministic simulation with fault injection: connectconformance.Run driven inside the simulator with scripted peers in every process slot; seeded case fates x markings x feedback x process fates x schedules; oracle = independent truth-table reference model of the success rule compared with Run's boolean, plus output laws; shrinking + exact tape replay",
         "level_text": "Seeded exploration of histories: each run executes Run() itself on the current tree (config and suite files, patterns, run(), batches, report) against scripted client/server processes whose per-case fates (pass, assertion failure, client error, neither, never answered), markings, reference-peer feedback and process fates (clean early exit, non-zero exit, stall, cut output, server start failure/garbage/never/death mid-batch) come from the tape; success is compared with a reference model of the statement (iff, with runs whose delivery is undetermined counted as inconclusive), every unmet case must be named, totals must add up. Evidence, not proof.",
-        "level_note": "Trusted: simrt scheduler/instrumenter (checked at run time), synctest clock, io.Pipe, the library's own expansion for the selected set (C07/C08 assumed). OS processes stubbed by in-process peers through runInProcess.",
+        "level_note": "Trusted: simrt scheduler/instrumenter (checked at run time), synctest clock, io.Pipe, the library's own expansion for the selected set (C07/C08 assumed). OS processes stubbed by in-process peers through runInProcess. Second scenario c04-printer: concurrent tasks printing feedback lines through internal.NewPrinter must reach the sink as whole lines. A run that Run() rejects because of 'unmatched' patterns is judged too: a rejected pattern must not be the only pattern of its list that matches some permutation (independent glob matcher).",
     },
     "C05": {
         "engine": "S",
